@@ -21,8 +21,9 @@ Inductive oevent :=
 | OOffline (n : N) (l : list pin)    (* OfflineState of n's data *)
 | ORecovered (n m0 : N) (o : option (list pin))  (* R3: n's process was killed and started again on its data; it is ready and serves o;
                                             m0 = operations acknowledged before the kill (one more may have been in flight) *)
-| OReady (n m0 : N) (o : option (list pin)).  (* C17: Consensus.State on n right after its WaitForSync returned; m0 = entries
-                                         committed when the AddPeer that admitted n returned *)
+| OReady (n m0 : N) (q : bool) (o : option (list pin)).  (* C17: Consensus.State on n right after its WaitForSync returned; m0 = entries
+                                         committed when the AddPeer that admitted n returned; q = raft's AppliedIndex equalled
+                                         its LastIndex at that moment *)
 
 (* ---- equality on observables ---- *)
 Definition optZN_eqb (a b : option (Z * N)) : bool :=
@@ -93,7 +94,7 @@ Definition model_step (cmds : list logop) (cl : cluster) (e : oevent) : cluster 
       | Some c => (c, true)
       | None => (cl0, false)
       end
-  | OReady n _ o =>
+  | OReady n _ _ o =>
       (cl, match view (getn (nn n) cl), o with
            | Some s, Some l => pins_eqb (map snd s) l
            | None, None => true
@@ -159,7 +160,7 @@ Definition spec_step (cmds : list logop) (lg : list N) (sn : list snode) (e : oe
        match o with
        | Some l => existsb (fun m => pins_eqb (map snd (replay (firstn m ops))) l) (seq (nn m0) (S (length lg - nn m0)))
        | None => false end)
-  | OReady n m0 o =>                                                                    (* ready: a prefix that covers everything committed before the join returned *)
+  | OReady n m0 _ o =>                                                                  (* ready: a prefix that covers everything committed before the join returned *)
       (lg, sn, match o with
                | Some l => let a := Nat.max (s_applied (sgetn (nn n) sn)) (nn m0) in
                            existsb (fun m => pins_eqb (map snd (replay (firstn m ops))) l) (seq a (S (length lg - a)))
